@@ -157,9 +157,13 @@ def run(res):
         res.violation("C03 value differential: {{ %s }} with data %s: %s (generated=%s reference=%s)" % (
             e["wxml"], json.dumps(d)[:300], msg, json.dumps(gv)[:200], json.dumps(rv)[:200]),
             {"wxml": e["wxml"], "src": e["src"], "reference_js": e["ref"], "data": d, "generated": gv, "reference": rv})
+    # free identifiers denote the innermost enclosing template scope, then the data field (shared with C05)
+    import scopeval
+    f_sc, n_sc, _, _, _ = scopeval.check(res)
+    res.notes["scope_resolution_evaluations"] = n_sc
     if not ok:
-        res.violation(what, {"obligation": "Properties/C03.v"}, no_input=not bad)
-    res.cov["evaluations"] = r["n"] + n_eval + n_sem
+        res.violation(what, {"obligation": "Properties/C03.v"}, no_input=not (bad or f_sc))
+    res.cov["evaluations"] = r["n"] + n_eval + n_sem + n_sc
     res.cov["distinct_nontrivial"] = len(set(e["wxml"] for e in exprs if e["size"] >= 3))
     res.cov["rule"] = ("text correspondence: every (operator, operand position, child shape) combination to depth 2 plus random "
                        "expressions (depth <= 6) in attribute / model: / event-named attribute / text contexts; value differential: "
